@@ -33,7 +33,7 @@ def decode_dirty_fields(prog):
     if m is None:
         raise AnalysisError("anchor vanished: mqtt.pdu")
     for c in m.classes.values():
-        dec = c.methods.get("decode")
+        dec = prog.lookup_method(c, "decode")
         if dec is None:
             continue
         stmts = list(_flat_stmts(dec.node.body))
